@@ -605,6 +605,11 @@ int _vnacal_apply_common(vnacal_apply_args_t vaa)
     if (vaa.vaa_frequencies == 0) {
 	goto range_ok;
     }
+    if (calp->cal_frequencies == 0) {
+	_vnacal_error(vcp, VNAERR_USAGE,
+		"%s: calibration has no frequency points", vaa.vaa_function);
+	return -1;
+    }
     fmin = _vnacal_calibration_get_fmin_bound(calp);
     if (vaa.vaa_frequency_vector[0] < fmin) {
 	_vnacal_error(vcp, VNAERR_USAGE,
